@@ -109,6 +109,12 @@ CORPUS = [
      ["da", "bdc", "dc", "bda"]),
     ("regex-alt", "S: X+;\nX: A | B | C;\nterminals\nA: /a|b/;\nB: /[0-9]+|x/;\nC: /(?i)k(e|é)y|λ+/;\n",
      ["ab", "cb", "a 12 x", "KeY kéy λλ", "b9y", " λa"]),
+    # skip_ws(false) + a Layout rule that derives comments only: whitespace between tokens is then NOT skipped by anything
+    # (the generated constructor wires skip_ws / partial_parse / has_layout into the runtime)
+    ("noskip-layout", "S: W+;\nW: Id;\nLayout: Comment*;\nterminals\nId: /[a-z]+/;\nComment: /#[^#]*#/;\n",
+     ["ab cd", "ab #x# cd", " ab", "ab\n", "ab#x#cd", "ab#x##y#cd"]),
+    ("noskip-plain", "S: W+;\nW: Id Semi;\nterminals\nId: /[a-z]+/;\nSemi: ';';\n",
+     ["ab;cd;", "ab; cd;", " ab;", "ab;\n"]),
     # fancy_regex(true): look-ahead + nested quantifier; the long inputs without `;` exceed fancy_regex's backtrack limit
     # (the engine returns Err, which the generated recognizer must treat as "no match")
     ("fancy-backtrack", "S: Words Semi | Words;\nterminals\nWords: /(?:\\w+\\s?)+(?=;)/;\nSemi: ';';\n",
@@ -200,6 +206,8 @@ def gen_cases(rng, n_random, lit_budget):
             st = full_settings(s7)
             if name.startswith("fancy"):
                 st[9] = "1"
+            if name.startswith("noskip"):
+                st[8] = "0"
             cases.append(Case(text, st, "corpus:" + name, inputs))
     for f in load_findings():
         w = f.get("witness", {})
